@@ -11,18 +11,24 @@ from txlib import compact_size, ref_wire
 
 from pycoin.symbols.btc import network as BTC
 from pycoin.message.make_parser_and_packer import standard_messages
+from pycoin.message.PeerAddress import PeerAddress
+from pycoin.message.InvItem import InvItem
 
 MANIFEST = {
     "text": "Lean theorems over a model of make_parser_and_packer (layout-string interpretation, pack_from_data, Streamer.parse_struct "
             "with arrays and tuples, every codec letter, post-processors): generic round trip for every well-formed layout over codecs "
             "satisfying the prefix-parser law, a kernel-checked decision over the generated table of all message layouts and codec "
             "letters, and wire-encoding equalities against an independent spec; model tied to the code by differential correspondence "
-            "through network.message.pack/parse for all message names on every run.",
+            "through network.message.pack/parse for all message names on every run. "
+            "PeerAddress / InvItem as objects (Model/P2PObjects.lean): constructor assertions, IPv4 embedding and host(), ==, <, the "
+               "comparisons functools.total_ordering derives, hashing/set membership, as histories on one object (C16_peer_*, C16_inv_*).",
     "note": "Embedded transactions rely on the C07 transaction model; blocks and headers on the C14 block model.",
     "technique": "Lean 4 proof (prefix-parser law, induction over layouts, decide +kernel over the generated layout table) + differential "
                  "correspondence model vs implementation + independent wire encoder",
 }
-RULE = ("ops msg_rt <name> <fields> (pack then parse), msg_parse <name> <bytes> and msg_hist (a sequence of pack/parse calls over "
+RULE = ("ops pa_new/pa_cmp/pa_hist/inv_new/inv_cmp/inv_hist (helper objects: boundary addresses of 4/16/other lengths, pairs differing in "
+        "exactly one component, prefixes, mutation then comparison); "
+        "ops msg_rt <name> <fields> (pack then parse), msg_parse <name> <bytes> and msg_hist (a sequence of pack/parse calls over "
         "btc/ltc/btg/bch/grs/doge/xtg run in a fresh interpreter state, every ordered pair of networks x every message with an embedded "
         "tx/block/header, each step compared with the same call alone in a fresh state); type-directed values per reference layout: boundary "
         "integers, empty/1/252/253/300-element arrays, IPv4-mapped and IPv6 addresses, optional field present/absent, embedded "
@@ -74,10 +80,78 @@ def _fatten(v):
     return v
 
 
+def _b(s):
+    return b"" if s == "-" else bytes.fromhex(s)
+
+
+def _flags(a, b):
+    return "".join(str(int(x)) for x in (a == b, a != b, a < b, a <= b, a > b, a >= b))
+
+
+def _bin(o):
+    import io
+    f = io.BytesIO()
+    try:
+        o.stream(f)
+    except Exception as e:  # noqa: BLE001
+        return "err:" + _cls(e)
+    return f.getvalue().hex() or "-"
+
+
+def _obj_hist(o, steps, kind):
+    out = []
+    for st in steps:
+        p = st.split(":")
+        if p[0] == "host":
+            out.append(o.host())
+        elif p[0] == "bin":
+            out.append(_bin(o))
+        elif p[0] == "set":
+            attr = {"services": "services", "port": "port", "ip": "ip_bin", "type": "item_type", "data": "data"}[p[1]]
+            setattr(o, attr, _b(p[2]) if p[1] in ("ip", "data") else int(p[2]))
+            out.append("-")
+        elif p[0] == "cmp" and kind == "pa":
+            out.append(_flags(o, PeerAddress(int(p[1]), _b(p[2]), int(p[3]))))
+        elif p[0] == "cmp":
+            other = InvItem(int(p[1]), _b(p[2]), dont_check=True)
+            out.append(_flags(o, other) + str(len({o, other})))
+    return "ok " + "|".join(out)
+
+
+def _impl_obj(k, a):
+    if k == "pa_new":
+        try:
+            o = PeerAddress(int(a[1]), _b(a[2]), int(a[3]))
+        except AssertionError:
+            return "err AssertionError"
+        return "ok %d %s %d %s" % (o.services, o.ip_bin.hex() or "-", o.port, o.host())
+    if k == "pa_cmp":
+        x, y = PeerAddress(int(a[1]), _b(a[2]), int(a[3])), PeerAddress(int(a[4]), _b(a[5]), int(a[6]))
+        return "ok %s %d" % (_flags(x, y), int(x == 5 or x == (x.services, x.ip_bin, x.port)))
+    if k == "pa_hist":
+        return _obj_hist(PeerAddress(int(a[1]), _b(a[2]), int(a[3])), a[4].split(","), "pa")
+    if k == "inv_new":
+        try:
+            o = InvItem(int(a[1]), _b(a[2]), dont_check=(a[3] == "1"))
+        except AssertionError:
+            return "err AssertionError"
+        return "ok %d %s" % (o.item_type, o.data.hex() or "-")
+    if k == "inv_cmp":
+        x, y = InvItem(int(a[1]), _b(a[2]), dont_check=True), InvItem(int(a[3]), _b(a[4]), dont_check=True)
+        return "ok %s %d %d %d" % (_flags(x, y), len({x, y}), int(not (x == y) or hash(x) == hash(y)), int(x == 5 or x == (x.item_type, x.data)))
+    if k == "inv_hist":
+        return _obj_hist(InvItem(int(a[1]), _b(a[2]), dont_check=True), a[3].split(","), "inv")
+    return None
+
+
 def impl(op: str) -> str:
     a = op.split(" ")
     k = a[0]
     try:
+        if k.startswith("pa_") or k.startswith("inv_"):
+            r = _impl_obj(k, a)
+            if r is not None:
+                return r
         if k == "msg_rt":
             name, fields = a[1], parse_fields(a[2])
             try:
@@ -151,8 +225,69 @@ def hist_oracle(steps, out: str):
     return None
 
 
+def _obj_oracle(a, out):
+    """the property on the implementation alone: the comparisons are those of the field tuples, `==` means same fields,
+    equal objects hash alike, and an object that was mutated answers like a fresh one with the same fields"""
+    k = a[0]
+    if not out.startswith("ok"):
+        return None
+    if k == "pa_new":
+        ip = _b(a[2])
+        f = out.split(" ")
+        want_ip = (bytes(10) + b"\xff\xff" + ip) if len(ip) == 4 else ip
+        if f[2] != want_ip.hex() or int(f[1]) != int(a[1]) or int(f[3]) != int(a[3]):
+            return "PeerAddress does not keep the fields it was built from (4-byte addresses as IPv4-mapped)"
+        import ipaddress
+        if want_ip[:12] == bytes(10) + b"\xff\xff":
+            if f[4] != str(ipaddress.IPv4Address(want_ip[12:])):
+                return "host() of an IPv4-mapped address is not its dotted quad"
+        elif ipaddress.IPv6Address(f[4]).packed != want_ip:
+            return "host() is not a text form of the 16-byte address"
+    if k in ("pa_cmp", "inv_cmp"):
+        if k == "pa_cmp":
+            def key(s_, ip, p):
+                ip = _b(ip)
+                return ((bytes(10) + b"\xff\xff" + ip) if len(ip) == 4 else ip, int(p), int(s_))
+            x, y = key(a[1], a[2], a[3]), key(a[4], a[5], a[6])
+        else:
+            x, y = (int(a[1]), _b(a[2])), (int(a[3]), _b(a[4]))
+        f = out.split(" ")
+        want = "".join(str(int(v)) for v in (x == y, x != y, x < y, x <= y, x > y, x >= y))
+        if f[1] != want:
+            return "comparisons of the objects are not those of their field tuples"
+        if f[-1] != "0":
+            return "an object compares equal to something that is not of its class"
+        if k == "inv_cmp" and (int(f[2]) != (1 if x == y else 2) or f[3] != "1"):
+            return "equal InvItems do not hash alike / a set keeps the wrong number of them"
+    if k in ("pa_hist", "inv_hist"):
+        # replay: every observer must answer like a FRESH object built from the current fields
+        if k == "pa_hist":
+            cur = {"services": int(a[1]), "ip": _b(a[2]), "port": int(a[3])}
+            if len(cur["ip"]) == 4:
+                cur["ip"] = bytes(10) + b"\xff\xff" + cur["ip"]
+            steps = a[4].split(",")
+            def fresh():
+                return PeerAddress(cur["services"], cur["ip"], cur["port"])
+        else:
+            cur = {"type": int(a[1]), "data": _b(a[2])}
+            steps = a[3].split(",")
+            def fresh():
+                return InvItem(cur["type"], cur["data"], dont_check=True)
+        for st, ans in zip(steps, out[3:].split("|")):
+            p = st.split(":")
+            if p[0] == "set":
+                cur[p[1]] = _b(p[2]) if p[1] in ("ip", "data") else int(p[2])
+                continue
+            want = _obj_hist(fresh(), [st], "pa" if k == "pa_hist" else "inv")[3:]
+            if ans != want:
+                return "step %s on an object with a history answers differently from a fresh object with the same fields" % st
+    return None
+
+
 def oracle(op: str, out: str):
     a = op.split(" ")
+    if a[0].startswith("pa_") or a[0].startswith("inv_"):
+        return _obj_oracle(a, out)
     if a[0] == "msg_hist":
         return hist_oracle(a[1].split("|"), out)
     if a[0] != "msg_rt":
@@ -332,8 +467,125 @@ def gen_histories(ctx, emit):
         emit("msg_hist " + "|".join(steps))
 
 
+def gen_objects(ctx, emit):
+    rng = ctx.rng
+    IP4H = bytes(10) + b"\xff\xff"
+
+    def hexs(b):
+        return b.hex() or "-"
+
+    def rip():
+        c = rng.randrange(6)
+        if c == 0:
+            return rng.randbytes(4)
+        if c == 1:
+            return IP4H + rng.randbytes(4)
+        if c == 2:
+            return rng.choice([bytes(16), bytes(15) + b"\x01", b"\xff" * 16, b"\x20\x01\x0d\xb8" + bytes(11) + b"\x01"])
+        if c == 3:
+            return IP4H[:11] + rng.randbytes(5)           # almost the IPv4 prefix
+        return rng.randbytes(16)
+    # constructor: every length 0..20, the IPv4 embedding, services/port boundaries
+    for n in list(range(0, 21)) + [32]:
+        emit("pa_new 1 %s 8333" % hexs(rng.randbytes(n)))
+    for ip in (b"\x7f\x00\x00\x01", IP4H + b"\x7f\x00\x00\x01", bytes(16), bytes(15) + b"\x01", b"\xff" * 16, b"\x00\x01" * 8,
+               bytes(10) + b"\xff\xfe" + b"\x01\x02\x03\x04", bytes(9) + b"\x01\xff\xff" + b"\x01\x02\x03\x04"):
+        for sv, port in ((0, 0), (2 ** 64 - 1, 65535), (1, 8333)):
+            emit("pa_new %d %s %d" % (sv, hexs(ip), port))
+    for _ in range(ctx.n(150, 5000)):
+        emit("pa_new %d %s %d" % (rng.choice([0, 1, 1033, 2 ** 64 - 1, rng.randrange(2 ** 64)]), hexs(rip()), rng.choice([0, 1, 8333, 65535, rng.randrange(65536)])))
+    # comparisons: pairs that differ in exactly one component, in the first differing byte, by a prefix byte value
+    def pa():
+        return [rng.choice([0, 1, 2, rng.randrange(2 ** 64)]), rip(), rng.choice([0, 1, 8333, rng.randrange(65536)])]
+    for _ in range(ctx.n(250, 10000)):
+        x = pa()
+        y = list(x)
+        c = rng.randrange(7)
+        if c == 0:
+            y = pa()
+        elif c == 1:
+            y[0] = x[0] + rng.choice([-1, 1]) if x[0] > 0 else 1
+        elif c == 2:
+            y[2] = (x[2] + rng.choice([1, 65535])) % 65536
+        elif c == 3:
+            ip = bytearray(x[1] if len(x[1]) == 16 else IP4H + x[1])
+            i = rng.randrange(16)
+            ip[i] = (ip[i] + rng.choice([1, 255, 128])) % 256
+            y[1] = bytes(ip)
+        elif c == 4 and len(x[1]) == 4:
+            y[1] = IP4H + x[1]                               # the same address in both spellings
+        elif c == 5:
+            y[0], y[2] = x[0] + 1, max(0, x[2] - 1)          # components disagree on the order: the port decides
+        if rng.random() < 0.5:
+            x, y = y, x
+        emit("pa_cmp %d %s %d %d %s %d" % (x[0], hexs(x[1]), x[2], y[0], hexs(y[1]), y[2]))
+    emit("pa_cmp 1 %s 5 2 %s 4" % (hexs(bytes(16)), hexs(bytes(16))))
+    emit("pa_cmp 9 %s 5 1 %s 5" % (hexs(bytes(15) + b"\x01"), hexs(bytes(15) + b"\x02")))
+    for _ in range(ctx.n(120, 5000)):
+        x = pa()
+        steps = []
+        for _s in range(rng.randint(2, 7)):
+            c = rng.randrange(6)
+            if c == 0:
+                steps.append("host")
+            elif c == 1:
+                steps.append("bin")
+            elif c == 2:
+                steps.append("set:services:%d" % rng.choice([0, 5, 2 ** 64 - 1, 2 ** 64, rng.randrange(2 ** 64)]))
+            elif c == 3:
+                steps.append("set:port:%d" % rng.choice([0, 65535, 65536, rng.randrange(65536)]))
+            elif c == 4:
+                steps.append("set:ip:%s" % hexs(rng.choice([IP4H + rng.randbytes(4), rng.randbytes(16)])))
+            else:
+                y = pa() if rng.random() < 0.5 else x
+                steps.append("cmp:%d:%s:%d" % (y[0], hexs(y[1]), y[2]))
+        steps += ["host", "bin", "cmp:%d:%s:%d" % (x[0], hexs(x[1]), x[2])]
+        emit("pa_hist %d %s %d %s" % (x[0], hexs(x[1]), x[2], ",".join(steps)))
+    # InvItem
+    for t in (0, 1, 2, 3, 4, 5, 2 ** 30 + 1, 2 ** 32 - 1, -1):
+        for dc in (0, 1):
+            emit("inv_new %d %s %d" % (t, hexs(rng.randbytes(32)), dc))
+    for n in (0, 1, 31, 33, 64):
+        emit("inv_new 1 %s 0" % hexs(rng.randbytes(n)))
+        emit("inv_new 1 %s 1" % hexs(rng.randbytes(n)))
+    def inv():
+        return [rng.choice([0, 1, 2, 3, 4, 2 ** 30 + 1, rng.randrange(2 ** 32)]), rng.choice([bytes(32), b"\xff" * 32, rng.randbytes(32)])]
+    for _ in range(ctx.n(250, 10000)):
+        x = inv()
+        y = list(x)
+        c = rng.randrange(5)
+        if c == 0:
+            y = inv()
+        elif c == 1:
+            y[0] = x[0] + rng.choice([-1, 1]) if x[0] > 0 else 1
+        elif c == 2:
+            d = bytearray(x[1]); i = rng.randrange(32); d[i] = (d[i] + rng.choice([1, 255, 128])) % 256; y[1] = bytes(d)
+        elif c == 3:
+            d = bytearray(x[1]); d[0] = (d[0] + 1) % 256; y = [x[0] + 1, bytes(d)] if d[0] == 0 else [x[0] + 1, bytes([max(0, x[1][0] - 1)]) + x[1][1:]]
+        if rng.random() < 0.5:
+            x, y = y, x
+        emit("inv_cmp %d %s %d %s" % (x[0], hexs(x[1]), y[0], hexs(y[1])))
+    for _ in range(ctx.n(100, 5000)):
+        x = inv()
+        steps = []
+        for _s in range(rng.randint(2, 6)):
+            c = rng.randrange(4)
+            if c == 0:
+                steps.append("bin")
+            elif c == 1:
+                steps.append("set:type:%d" % rng.choice([0, 1, 2, 3, 2 ** 32 - 1, 2 ** 32]))
+            elif c == 2:
+                steps.append("set:data:%s" % hexs(rng.randbytes(32)))
+            else:
+                y = inv() if rng.random() < 0.5 else x
+                steps.append("cmp:%d:%s" % (y[0], hexs(y[1])))
+        steps += ["bin", "cmp:%d:%s" % (x[0], hexs(x[1]))]
+        emit("inv_hist %d %s %s" % (x[0], hexs(x[1]), ",".join(steps)))
+
+
 def gen(ctx, emit):
     rng = ctx.rng
+    gen_objects(ctx, emit)
     gen_histories(ctx, emit)
     live = standard_messages()
     if sorted(live) != NAMES:
@@ -343,6 +595,11 @@ def gen(ctx, emit):
     def rt(name, fields, tag=""):
         emit("msg_rt %s %s%s" % (name, show_fields(fields), (" " + tag) if tag else ""))
 
+    # names the table does not have (names are case-sensitive): KeyError from parse and from pack
+    for bogus in ("nosuchmessage", "Version", "ping2", "x"):
+        emit("msg_parse %s 00" % bogus)
+        emit("msg_parse %s -" % bogus)
+        emit("msg_rt %s ~" % bogus)
     for name in NAMES:
         layout = REF[name]
         has_array = any(isinstance(t, list) for _, t in layout)
